@@ -53,6 +53,15 @@ var c11hRetryAfter = regexp.MustCompile(`x-lunar-retry-after:\s*([0-9.]+)`)
 
 func runC11H(s *kernel.Sim) {
 	tp := s.Tape
+	// lock attempts that do not wait (TryLock / TryRLock) may fail as if another
+	// goroutine - a pinning transaction, a reload, a vacuum pass - held the lock
+	s.FaultOn = func(point string, _ []string) error {
+		if point == "trylock" && tp.Chance(1, 3) {
+			s.FaultFired("non_waiting_lock_attempt_met_a_held_lock")
+			return fmt.Errorf("contended")
+		}
+		return nil
+	}
 	nOps := tp.Range(6, 40)
 	s.Knobs["ops"] = nOps
 	s.LogEngineEvents = false
